@@ -225,6 +225,82 @@ fn mutants(doc: &Value) -> Vec<(String, Value)> {
   out
 }
 
+/// Top-level keys derived from the schema's own field paths (an accepted document is owed a
+/// successful commit whatever its keys look like, and look-alikes of declared paths are where a
+/// lenient path lookup would accept what indexing later refuses): every resolved nested leaf path
+/// (`c.a`), every nested object path (`c.r`), each of those and every top-level field / nested
+/// field / id name extended by one segment (`c.a.raw`, `c.r.raw`, `kw.raw`, `c.raw`, `_id.raw`),
+/// and leaf paths extended by two segments (`c.a.raw.x`).
+fn schema_derived_keys(schema: &Value) -> Vec<String> {
+  fn walk(n: &Value, prefix: &str, leaves: &mut Vec<String>, objects: &mut Vec<String>) {
+    for p in n["fields"].as_array().cloned().unwrap_or_default() {
+      let path = format!("{prefix}.{}", p["name"].as_str().unwrap_or(""));
+      if p["type"] == json!("object") {
+        objects.push(path.clone());
+        walk(&p, &path, leaves, objects);
+      } else {
+        leaves.push(path);
+      }
+    }
+  }
+  let mut leaves = Vec::new();
+  let mut objects = Vec::new();
+  let mut tops: Vec<String> = vec!["_id".to_string()];
+  for list in ["text_fields", "keyword_fields", "numeric_fields"] {
+    for f in schema[list].as_array().cloned().unwrap_or_default() {
+      tops.push(f["name"].as_str().unwrap_or("").to_string());
+    }
+  }
+  for n in schema["nested_fields"].as_array().cloned().unwrap_or_default() {
+    let name = n["name"].as_str().unwrap_or("").to_string();
+    walk(&n, &name, &mut leaves, &mut objects);
+    tops.push(name);
+  }
+  let mut keys: Vec<String> = Vec::new();
+  keys.extend(leaves.iter().cloned());
+  keys.extend(objects.iter().cloned());
+  for k in leaves.iter().chain(objects.iter()).chain(tops.iter()) {
+    keys.push(format!("{k}.raw"));
+  }
+  for k in &leaves {
+    keys.push(format!("{k}.raw.x"));
+  }
+  for k in &tops {
+    keys.push(format!("{k}.nope"));
+  }
+  let mut seen = HashSet::new();
+  keys.retain(|k| seen.insert(k.clone()));
+  keys
+}
+
+/// Mutants that add one schema-derived top-level key with a value of each JSON type.
+fn schema_key_mutants(schema: &Value, doc: &Value) -> Vec<(String, Value)> {
+  let values = [
+    ("string", json!("s")),
+    ("int", json!(7)),
+    ("float", json!(1.5)),
+    ("bool", json!(true)),
+    ("null", Value::Null),
+    ("string array", json!(["s"])),
+    ("int array", json!([7])),
+    ("object", json!({"a": "p"})),
+    ("array of objects", json!([{"a": "p"}])),
+  ];
+  let obj = doc.as_object().unwrap();
+  let mut out = Vec::new();
+  for k in schema_derived_keys(schema) {
+    if obj.contains_key(&k) {
+      continue;
+    }
+    for (vn, v) in &values {
+      let mut d = doc.clone();
+      d[k.as_str()] = v.clone();
+      out.push((format!("add schema-derived top-level key {k:?} = {vn}"), d));
+    }
+  }
+  out
+}
+
 // ---------------------------------------------------------------------------------------------
 // Independent schema-validity predicate (written from README / index-schema.json, not from the
 // validation code). It reports *reasons* a document is plainly invalid; inputs on which the
@@ -611,7 +687,7 @@ pub fn run(ctx: &Ctx) -> i32 {
       }
     }
     for (bi, b) in bases.iter().enumerate() {
-      for (m, d) in mutants(b) {
+      for (m, d) in mutants(b).into_iter().chain(schema_key_mutants(&sjson, b)) {
         if seen.insert(d.to_string()) {
           cases.push(Case { schema_name: sname, schema_json: sjson.clone(), doc: d.clone(), base: b.clone(), mutations: vec![m.clone()] });
           per_depth[1] += 1;
@@ -622,7 +698,7 @@ pub fn run(ctx: &Ctx) -> i32 {
     // quick: second-order mutants of the two simplest base documents only
     let second: Vec<Vec<(String, String, Value)>> = singles
       .par_iter()
-      .map(|(bi, _, d1)| if quick && *bi >= 2 { Vec::new() } else { mutants(d1).into_iter().map(|(m2, d2)| (d2.to_string(), m2, d2)).collect() })
+      .map(|(bi, m1, d1)| if quick && (*bi >= 2 || m1.starts_with("add schema-derived")) { Vec::new() } else { mutants(d1).into_iter().map(|(m2, d2)| (d2.to_string(), m2, d2)).collect() })
       .collect();
     for ((bi, m1, _), list) in singles.iter().zip(second) {
       for (key, m2, d2) in list {
@@ -726,7 +802,7 @@ pub fn run(ctx: &Ctx) -> i32 {
   let rs: BTreeMap<String, Value> = reason_stats.lock().iter().map(|(k, (n, r))| (k.clone(), json!({"cases": n, "rejected_at_add": r}))).collect();
   let cov = vcore::cov! {
     "distinct_nontrivial" => invalid_cases.load(Ordering::Relaxed),
-    "rule" => "cases = per schema, every base document + every distinct result of one mutation operator + every distinct result of two (quick: second-order mutants of the two simplest base documents per schema only); operators act on the JSON shape: drop/blank/whitespace/non-string id, add unknown top-level field, for every value location replace by each of 11 typed values (null, bool, int, float, string, mixed array, float array, array of arrays, [[]], object, {}), wrap in an array, drop each property, add unknown property, append string/int/float/null/[]/{}/[first] to each array; plus (thorough only: it costs ~20 s) one document with a 33 MiB stored value. A case is non-trivial when the independent predicate finds at least one schema violation in it.",
+    "rule" => "cases = per schema, every base document + every distinct result of one mutation operator + every distinct result of two (quick: second-order mutants of the two simplest base documents per schema only, and none on top of a schema-derived key); plus, as first-order operators, every top-level key derived from the schema's field paths (nested leaf paths, nested object paths, those and every field / nested field / id name extended by a segment, leaf paths extended by two) with a value of each of 9 JSON shapes (judged only by add Ok => commit Ok, later commits not blocked); shape operators: drop/blank/whitespace/non-string id, add unknown top-level field, for every value location replace by each of 11 typed values (null, bool, int, float, string, mixed array, float array, array of arrays, [[]], object, {}), wrap in an array, drop each property, add unknown property, append string/int/float/null/[]/{}/[first] to each array; plus (thorough only: it costs ~20 s) one document with a 33 MiB stored value. A case is non-trivial when the independent predicate finds at least one schema violation in it.",
     "schemas" => universes().iter().map(|u| u.0).collect::<Vec<_>>(),
     "base_documents" => per_depth[0],
     "single_mutants" => per_depth[1],
